@@ -143,6 +143,21 @@ def doOrder (st : St) (kind dir root method mode : String) : String :=
     else "bad-op"
   | _, _, _ => "bad-op"
 
+/-- builder reuse (`mode1+mode2+...`, a stage may retarget: `path:5`): the model keeps no state between the
+    calls of one builder, so every stage is the ordinary request with the target then in force -/
+def doSearchStages (st : St) (kind dir root target method : String) (stages : List String) : String :=
+  let rec go : List String → String → List String
+    | [], _ => []
+    | s :: rest, tg =>
+      let (m, tg') := match s.splitOn ":" with
+        | [m, k] => (m, k)
+        | _ => (s, tg)
+      doSearch st kind dir root tg' method m :: go rest tg'
+  " ## ".intercalate (go stages target)
+
+def doOrderStages (st : St) (kind dir root method : String) (stages : List String) : String :=
+  " ## ".intercalate (stages.map fun m => doOrder st kind dir root method m)
+
 def showOrd (a b : Int) : String := if a < b then "Less" else if a = b then "Equal" else "Greater"
 def tf (b : Bool) : String := if b then "true" else "false"
 
@@ -712,9 +727,11 @@ def step (st : St) (line : String) : St × String :=
     | _, _ => (st, "bad-op")
   | ["search", kind, dir, root, target, method, mode] =>
     if method.contains '@' then doLiveSearch st false kind dir root target method mode
+    else if mode.contains '+' then (st, doSearchStages st kind dir root target method (mode.splitOn "+"))
     else (st, doSearch st kind dir root target method mode)
   | ["order", kind, dir, root, method, mode] =>
     if method.contains '@' then doLiveSearch st true kind dir root "-" method mode
+    else if mode.contains '+' then (st, doOrderStages st kind dir root method (mode.splitOn "+"))
     else (st, doOrder st kind dir root method mode)
   | ["iter", which, u, script] => doIter st which u script
   | ["macro", arg] => doMacro st arg
